@@ -76,9 +76,9 @@ static void write_int_to_array(uint8_t *array, unsigned int num)
 static unsigned int read_int_from_array(uint8_t *array)
 {
 	unsigned int ret = array[0] & 0xFF;
-	ret |= (array[1] << 8) & 0xFF00;
-	ret |= (array[2] << 16) & 0xFF0000;
-	ret |= (array[3] << 24) & 0xFF000000;
+	ret |= ((unsigned int)array[1] << 8) & 0xFF00;
+	ret |= ((unsigned int)array[2] << 16) & 0xFF0000;
+	ret |= ((unsigned int)array[3] << 24) & 0xFF000000;
 	return ret;
 }
 
